@@ -142,6 +142,28 @@ def t_inf():
     assert (x == float('nan')) is False
 
 
+def t_array_vs_scalar():
+    # ndarray <op> symbolic scalar must be element-wise (never fall back to identity comparison)
+    a, b = sym_int('a'), sym_int('b')
+    arr = np.empty(2, dtype=object)
+    arr[0], arr[1] = a, b
+
+    def f():
+        return bool(np.all(arr[1:] == arr[0])), (arr+a)[1], (a+arr)[1], (np.array([1, 2]) < a).tolist()
+    ex = explore(f, pre=[a.e == 1])
+    assert ex.complete
+    for p in ex.paths:
+        s = z3.Solver()
+        s.add(a.e == 1, p.cond())
+        assert str(s.check()) == 'sat'
+        m = s.model()
+        bv = m.eval(b.e, model_completion=True).as_long()
+        allv, s1, s2, lt = p.value
+        assert allv == (bv == 1), (allv, bv)
+        assert deep_eval(s1, m) == bv+1 and deep_eval(s2, m) == bv+1
+        assert lt == [False, False]
+
+
 def main():
     n = 0
     for name, f in sorted(globals().items()):
